@@ -197,11 +197,11 @@ func runThorough(meta *propMeta, base *Report, repo, verif string) (map[string]a
 	}
 	sort.Slice(mutSamples, func(i, j int) bool { return mutSamples[i]["mutant"] < mutSamples[j]["mutant"] })
 	th := map[string]any{
-		"build_configs":                 configs,
-		"witness_mutants_applied":       applied,
-		"witness_mutants_detected":      detected,
+		"build_configs":                  configs,
+		"witness_mutants_applied":        applied,
+		"witness_mutants_detected":       detected,
 		"witness_mutants_not_applicable": na,
-		"witness_mutants":               mutSamples,
+		"witness_mutants":                mutSamples,
 	}
 	return th, extra, broken
 }
